@@ -34,8 +34,6 @@ def classify_entry(text):
         kw, sep, hp = s.partition(" ")
         if not sep:
             continue
-        if kw not in KNOWN_KW:
-            return "parse-unknown-keyword-accepted"
         host = hp.rsplit(":", 1)[0] if ":" in hp else hp
         if host == "" or host == "[]":
             return "parse-empty-host-accepted"
